@@ -8,6 +8,7 @@ A case is a history of write/overwrite/read operations over a few paths; with
 
 from __future__ import annotations
 
+import pathlib
 import random
 
 from simkit import gen, simfs
@@ -90,8 +91,9 @@ def homogeneous(spec: dict) -> bool:
     return all(homo(tr["droplets"]) for tr in spec["tracks"])
 
 
-def _path(j: int) -> str:
-    return f"{simfs.ROOT}/file_{j}.h5"
+def _path(j: int):
+    p = f"{simfs.ROOT}/file_{j}.h5"
+    return pathlib.Path(p) if j % 2 else p  # both str and path-like arguments are used
 
 
 def _write(obj, path, info):
@@ -135,7 +137,7 @@ class _Run:
                 err = SutError(exc)
                 model[path] = ("unknown",)
                 fired = plan is not None and plan.fired
-                self.log.add("write_raised", op=i, path=path, exc=err.exc_type, fault=bool(fired))
+                self.log.add("write_raised", op=i, path=str(path), exc=err.exc_type, fault=bool(fired))
                 self.cnt.inc("writes_raised_under_fault" if fired else "writes_raised_clean")
                 if not fired and homogeneous(spec):
                     self.violations.append(Violation(
@@ -146,7 +148,7 @@ class _Run:
             else:
                 fired = plan is not None and plan.fired
                 model[path] = ("known", spec["t"], fp)
-                self.log.add("write_ok", op=i, path=path, kind=spec["t"], fault=bool(fired),
+                self.log.add("write_ok", op=i, path=str(path), kind=spec["t"], fault=bool(fired),
                              n=fs.total_writes - w0)
                 self.cnt.inc("writes_ok")
                 if fired:
@@ -170,7 +172,7 @@ class _Run:
             except Exception as exc:
                 err = SutError(exc)
                 fired = plan is not None and plan.fired
-                self.log.add("read_raised", op=i, path=path, exc=err.exc_type, fault=bool(fired))
+                self.log.add("read_raised", op=i, path=str(path), exc=err.exc_type, fault=bool(fired))
                 if state[0] == "known" and state[1] == kind and not fired:
                     self.violations.append(Violation(
                         "C08.O1", f"from_file raised {err.text} for a {kind} file whose "
@@ -183,7 +185,7 @@ class _Run:
                 fired = plan is not None and plan.fired
                 if state[0] == "known" and state[1] == kind:
                     fp = gen.fingerprint(res)
-                    self.log.add("read_ok", op=i, path=path, kind=kind, fault=bool(fired),
+                    self.log.add("read_ok", op=i, path=str(path), kind=kind, fault=bool(fired),
                                  n=fs.total_reads - r0)
                     self.cnt.inc("reads_compared")
                     if fp != state[2]:
